@@ -2211,6 +2211,69 @@ func (cs ConditionsSet) withReferenceTime(oldReferenceTime, newReferenceTime tim
 	return res
 }
 
+// renameSubQueries returns a copy of the conditions in which every sub query is replaced by rename(sub query),
+// the name of the stream itself is "". The conditions in cs are not modified.
+func (cs ConditionsSet) renameSubQueries(rename func(string) string) ConditionsSet {
+	res := make(ConditionsSet, 0, len(cs))
+	for _, ccs := range cs {
+		ccsNew := make(Conditions, 0, len(ccs))
+		for _, cc := range ccs {
+			switch c := cc.(type) {
+			case *TagCondition:
+				n := *c
+				n.SubQuery = rename(c.SubQuery)
+				cc = &n
+			case *FlagCondition:
+				n := *c
+				n.SubQueries = slices.Clone(c.SubQueries)
+				for i := range n.SubQueries {
+					n.SubQueries[i] = rename(n.SubQueries[i])
+				}
+				cc = &n
+			case *HostCondition:
+				n := *c
+				n.HostConditionSources = slices.Clone(c.HostConditionSources)
+				for i := range n.HostConditionSources {
+					n.HostConditionSources[i].SubQuery = rename(n.HostConditionSources[i].SubQuery)
+				}
+				cc = &n
+			case *TimeCondition:
+				n := *c
+				n.Summands = slices.Clone(c.Summands)
+				for i := range n.Summands {
+					n.Summands[i].SubQuery = rename(n.Summands[i].SubQuery)
+				}
+				cc = &n
+			case *NumberCondition:
+				n := *c
+				n.Summands = slices.Clone(c.Summands)
+				for i := range n.Summands {
+					n.Summands[i].SubQuery = rename(n.Summands[i].SubQuery)
+				}
+				cc = &n
+			case *DataCondition:
+				n := *c
+				n.Elements = slices.Clone(c.Elements)
+				for i := range n.Elements {
+					e := &n.Elements[i]
+					e.SubQuery = rename(e.SubQuery)
+					e.Variables = slices.Clone(e.Variables)
+					for j := range e.Variables {
+						// variables without sub query are the ones captured by the condition itself
+						if e.Variables[j].SubQuery != "" {
+							e.Variables[j].SubQuery = rename(e.Variables[j].SubQuery)
+						}
+					}
+				}
+				cc = &n
+			}
+			ccsNew = append(ccsNew, cc)
+		}
+		res = append(res, ccsNew)
+	}
+	return res
+}
+
 func (cs Conditions) inlineTagFilter(tags map[string]TagDetails, referenceTime time.Time) ConditionsSet {
 	const (
 		uncertain = TagConditionAcceptUncertainFailing | TagConditionAcceptUncertainMatching
@@ -2236,7 +2299,6 @@ func (cs Conditions) inlineTagFilter(tags map[string]TagDetails, referenceTime t
 		}
 		// the conditions of the tag are relative to the time they were parsed at
 		tagConditionsSet := td.Conditions.InlineTagFilters(tags, td.ReferenceTime).withReferenceTime(td.ReferenceTime, referenceTime)
-		//TODO: rename subqueries in tagConditionsSet to not collide with the normal query
 		if c.Accept&uncertain == TagConditionAcceptUncertainFailing {
 			if len(tagConditionsSet) == 0 {
 				// a tag without any alternative matches nothing, all undecided streams fail it
@@ -2245,6 +2307,14 @@ func (cs Conditions) inlineTagFilter(tags map[string]TagDetails, referenceTime t
 				tagConditionsSet = tagConditionsSet.invert()
 			}
 		}
+		// the conditions of the tag describe "the stream", here this is the stream of the sub query the tag filter
+		// is used in, the sub queries of the tag itself get names that can't collide with the ones of this query
+		tagConditionsSet = tagConditionsSet.renameSubQueries(func(sq string) string {
+			if sq == "" {
+				return c.SubQuery
+			}
+			return c.SubQuery + "@" + c.TagName + "@" + sq
+		})
 		origLen := len(csNew)
 		for range tagConditionsSet {
 			for _, c := range csNew[:origLen] {
